@@ -71,6 +71,22 @@ SETS["dup_names"] = {
     "Namespace.j2": _NS,
 }
 
+# a template that iterates the collections nunavut hands to templates (their order is part of the output)
+SETS["introspect"] = {
+    "Any.j2": "INTROSPECT {{ T.full_name }}\n"
+    "{% for k, v in options.items() %}option {{ k }}={{ v }}\n{% endfor %}"
+    "{% for l in ln %}language {{ l }}\n{% endfor %}"
+    "{% for k in uses_queries %}uses {{ k }}\n{% endfor %}"
+    "sets {{ nunavut.template_sets | length }} support {{ nunavut.support.namespace }} é–中\n",
+    "Namespace.j2": _NS,
+}
+
+# an INCOMPLETE set: only sealed structures have a template (no Any.j2): generation must fail for anything else
+SETS["struct_only"] = {
+    "StructureType.j2": "USER Structure-only {{ T.full_name }}\n" + _BODY,
+    "Namespace.j2": _NS,
+}
+
 SUPPORT_NAME = {"c": "serialization.j2", "cpp": "serialization.j2", "py": "nunavut_support.j2"}
 
 SUPPORT_SETS = {
@@ -92,7 +108,7 @@ def plant(tpl_root: str, name: str, files: typing.Dict[str, str]) -> str:
 def usable_for(lang: str, name: str) -> bool:
     """to_template_unique_name is provided by c, cpp and py only."""
     if lang == "html":
-        return False  # the html language provides no 'id' filter
+        return name == "introspect"  # the html language provides no 'id' filter; introspect does not need it
     if name == "blanky":
         return lang in ("c", "cpp", "py")
     return True
